@@ -41,7 +41,7 @@ PlainOps == <<"movi", "mov", "add", "sub", "imul", "and", "or", "xor", "addi", "
 FixedOps == <<"shl", "shr", "sar", "div", "idiv", "mul", "cmpxchg", "shl", "div", "mul", "xchg", "add", "mov", "setcc">>
 ExhOps == <<"shl", "div", "mul", "cmpxchg", "xchg", "call1", "sstx", "setcc", "mov">>      \* alphabet of the exhaustive mode
 CallOps  == <<"call1", "call2", "call1", "call2", "add", "mov", "sub", "shl", "div", "xor">>
-VecOps   == <<"vset", "vget", "vmov", "vxor", "vor", "vand", "vset", "vget", "vmov", "vxor">>
+VecOps   == <<"vset", "vget", "vmov", "vxor", "vor", "vand", "vandn", "vandn", "vset", "vget", "vmov", "vxor">>
 WideOps  == <<"qset", "qhi", "qlo", "qmov", "qxor", "qmov32", "qsx", "qop0", "qop0", "qop0", "qset16", "qset8", "qhi", "qxor",
                "qsh", "qsh", "qsh", "call3", "call3", "call4", "call4", "shl", "mul", "div">>
 Op0s     == {"add", "sub", "xor", "or", "shl", "shr", "sar", "rol", "ror"}
@@ -63,10 +63,10 @@ Mk(op, p, a, b, c, k, imm, cc, args, xa, xb, qa, qb, o0) ==
     [] op \in {"qsx", "qset16", "qset8"} -> << <<op, qa, a>> >>
     [] op = "qop0" -> << <<"qop0", o0, qa>> >>
     [] op \in {"qmov", "qxor", "qmov32"} -> IF qb = 0 THEN << <<"qop0", o0, qa>> >> ELSE << <<op, qa, qb>> >>
-    [] op \in {"vset", "vget", "vmov", "vxor", "vor", "vand"} /\ xa = 0 -> << <<"addi", a, imm>> >>
+    [] op \in {"vset", "vget", "vmov", "vxor", "vor", "vand", "vandn"} /\ xa = 0 -> << <<"addi", a, imm>> >>
     [] op = "vset" -> << <<"vset", xa, a>> >>
     [] op = "vget" -> << <<"vget", a, xa>> >>
-    [] op \in {"vmov", "vxor", "vor", "vand"} -> << <<op, xa, IF xb = 0 THEN xa ELSE xb>> >>
+    [] op \in {"vmov", "vxor", "vor", "vand", "vandn"} -> << <<op, xa, IF xb = 0 THEN xa ELSE xb>> >>
     [] op \in {"neg", "not", "xorself"} -> << <<op, a>> >>
     [] op = "addi" -> << <<"addi", a, imm>> >>
     [] b = 0 -> << <<"addi", a, imm>> >>                                       \* only one register exists
